@@ -22,6 +22,7 @@ Fixpoint dec_expr (x : sexp) : option expr :=
                     l_radix := rad; l_int := iv; l_f32 := f32; l_f64 := f64 |})
   | L [A "k"; n] => do n <- as_str n; Some (EConst n)
   | L [A "neg"; a] => do a <- dec_expr a; Some (ENeg a)
+  | L [A "not"; a] => do a <- dec_expr a; Some (ENot a)
   | L [A "par"; a] => do a <- dec_expr a; Some (EParen a)
   | L [A "bin"; op; a; b] =>
       do op <- as_atom op; do op <- dec_binop op; do a <- dec_expr a; do b <- dec_expr b;
